@@ -279,7 +279,8 @@ inductive Outcome
 /-- `transact_preverified_inner` up to the first frame: `load_accounts`, `set_precompiles`, `deduct_caller`, the EIP-7702
 list, `exec.call` / `exec.create`. Result: the first frame or its early result, the world, whether the transaction is a
 create, and the EIP-7702 refund -/
-def prepare (e : Env) (spec initialGas : Nat) (w : World) : R (FrameOrResult × World × Bool × Nat) := do
+def prepare {κ : Type} (C : CpOps κ) (e : Env) (spec initialGas : Nat) (w : World) :
+    R (FrameOrResult κ × World × Bool × Nat) := do
   let cfg := e.toCfg spec
   let w := loadAccounts e spec w
   let w ← deductCaller e spec w
@@ -293,18 +294,19 @@ def prepare (e : Env) (spec initialGas : Nat) (w : World) : R (FrameOrResult × 
       { input := e.tx.data, retStart := 0, retEnd := 0, gasLimit := gasLimit, bytecodeAddress := to,
         targetAddress := to, caller := e.tx.caller, valueTransfer := true, value := e.tx.value, scheme := .call,
         isStatic := false, isEof := false }
-    let (f, w) ← makeCallFrame cfg w inputs mem0
+    let (f, w) ← makeCallFrame C cfg w inputs mem0
     pure (f, w, false, eip7702Refund)
   | none => do
     let inputs : Interp.CreateInputs :=
       { caller := e.tx.caller, salt := none, value := e.tx.value, initCode := e.tx.data, gasLimit := gasLimit }
-    let (f, w) ← makeCreateFrame cfg w inputs mem0
+    let (f, w) ← makeCreateFrame C cfg w inputs mem0
     pure (f, w, true, eip7702Refund)
 
 /-- `run_the_loop` on the first frame, or its early result -/
-def runFirst (cfg : Cfg) (fuel : Nat) (first : FrameOrResult) (w : World) : R (Interp.ChildResult × World) :=
+def runFirst {κ : Type} (C : CpOps κ) (cfg : Cfg) (fuel : Nat) (first : FrameOrResult κ) (w : World) :
+    R (Interp.ChildResult × World) :=
   match first with
-  | .frame f => runLoop cfg fuel [f] w
+  | .frame f => runLoop C cfg fuel [f] w
   | .result r => pure (r, w)
 
 /-- the gas meter of the transaction after `last_frame_return`, `refund` and the EIP-7623 floor -/
@@ -355,9 +357,10 @@ def finish (e : Env) (spec floorGas eip7702Refund : Nat) (isCreate : Bool) (res 
   pure (r, w)
 
 /-- `transact_preverified_inner` after validation -/
-def execute (fuel : Nat) (e : Env) (spec initialGas floorGas : Nat) (w : World) : R (TxResult × World) := do
-  let (first, w, isCreate, eip7702Refund) ← prepare e spec initialGas w
-  let (res, w) ← runFirst (e.toCfg spec) fuel first w
+def execute {κ : Type} (C : CpOps κ) (fuel : Nat) (e : Env) (spec initialGas floorGas : Nat) (w : World) :
+    R (TxResult × World) := do
+  let (first, w, isCreate, eip7702Refund) ← prepare C e spec initialGas w
+  let (res, w) ← runFirst C (e.toCfg spec) fuel first w
   finish e spec floorGas eip7702Refund isCreate res w
 
 /-- `preverify_transaction_inner`: `validation.env`, `validation.initial_tx_gas`, `validation.tx_against_state`.
@@ -379,14 +382,18 @@ def preverify (w : World) (e : Env) (spec : Nat) : R (Option (World × Nat × Na
   if !validateAgainstState e spec code acc.info then return none
   return some (w, initialGas, floorGas)
 
-/-- `Evm::transact` on a fresh `Evm` (journal `JournaledState::new(spec, ∅)`); `spec` is the SpecId given to the
-builder, canonicalised like `spec_to_generic!` does -/
-def transact (fuel : Nat) (w : World) (e : Env) (spec : Nat) : R (Outcome × World) := do
+/-- `Evm::transact` over a subroutine discipline `C` -/
+def transactWith {κ : Type} (C : CpOps κ) (fuel : Nat) (w : World) (e : Env) (spec : Nat) : R (Outcome × World) := do
   let spec := GasCalc.canon spec
   match ← preverify w e spec with
   | none => pure (.rejected, w)
   | some (w', initialGas, floorGas) => do
-    let (r, w'') ← execute fuel e spec initialGas floorGas w'
+    let (r, w'') ← execute C fuel e spec initialGas floorGas w'
     pure (.executed r, w'')
+
+/-- `Evm::transact` on a fresh `Evm` (journal `JournaledState::new(spec, ∅)`); `spec` is the SpecId given to the
+builder, canonicalised like `spec_to_generic!` does -/
+def transact (fuel : Nat) (w : World) (e : Env) (spec : Nat) : R (Outcome × World) :=
+  transactWith journalOps fuel w e spec
 
 end Revm.Model.Evm
